@@ -53,6 +53,8 @@ def handler(case):
         return {"exc": type(e).__name__, "msg": str(e)[:300], "stage": "generate"}
 
     def ser(e, depth=0):
+        if not isinstance(e, ca.MX):
+            return ["?", type(e).__name__]
         if depth > 200:
             return ["?", "deep"]
         if e.shape != (1, 1):
@@ -95,7 +97,7 @@ def handler(case):
         """exact values of scalar MX expressions at a named point (None: a symbol has no value)"""
         if not exprs:
             return []
-        vec = ca.veccat(*exprs)
+        vec = ca.veccat(*[ca.MX(e) for e in exprs])      # a pass can leave a DM / float equation
         syms = ca.symvar(vec)
         args = []
         for s in syms:
@@ -134,7 +136,7 @@ def handler(case):
         unk = [v.symbol for v in m.der_states] + [v.symbol for v in m.alg_states]
         if not m.equations or not unk:
             return {"rank": 0, "n_unk": len(unk), "n_eq": len(m.equations)}
-        vec = ca.veccat(*m.equations)
+        vec = ca.veccat(*[ca.MX(e) for e in m.equations])
         J = ca.jacobian(vec, ca.veccat(*unk))
         syms = ca.symvar(ca.veccat(vec, ca.vec(J)))
         try:
@@ -169,14 +171,19 @@ def handler(case):
     post["n_eqs"] = len(model.equations)
     post["n_ieqs"] = len(model.initial_equations)
     post["classes"] = [[c, sorted(al)] for c, al in model.alias_relation]
-    post["eqvals_sol"] = eval_at(model.equations, pt)
-    post["ieqvals_sol"] = eval_at(model.initial_equations, pt)
+    # the solution PROJECTED onto what is still declared: an eliminated variable has no value
+    declared = {"time"}
+    for lst in (model.states, model.der_states, model.alg_states, model.inputs, model.parameters, model.constants):
+        declared |= {v.symbol.name() for v in lst}
+    proj = {k: v for k, v in pt.items() if k in declared}
+    post["eqvals_sol"] = eval_at(model.equations, proj)
+    post["ieqvals_sol"] = eval_at(model.initial_equations, proj)
     post["eqvals"] = [eval_at(model.equations, p) for p in case["points"]]
     post["ieqvals"] = [eval_at(model.initial_equations, p) for p in case["points"]]
     post["dae_residual"] = residual(model, "dae_residual_function", pt)
     post["initial_residual"] = residual(model, "initial_residual_function", pt)
     try:
-        post["jac"] = jac_rank(model, pt)
+        post["jac"] = jac_rank(model, proj)
     except Exception as e:  # noqa
         post["jac"] = {"rank": None, "msg": "%s: %s" % (type(e).__name__, str(e)[:200])}
     res["post"] = post
